@@ -296,9 +296,11 @@ namespace GeographicLib {
     // 25 = ceil(log_2(2e7)) -- use half circumference here because
     // northing 195e5 is a legal in the "southern" hemisphere.
     static const real eps = ldexp(real(1), -(Math::digits() - 25));
+    // Clamp the tile numbers before converting to ints (x and y may be huge)
+    real xt = floor(x / tile_), yt = floor(y / tile_);
     int
-      ix = int(floor(x / tile_)),
-      iy = int(floor(y / tile_)),
+      ix = xt >= 1000 ? 1000 : (xt > -1000 ? int(xt) : -1000),
+      iy = yt >= 1000 ? 1000 : (yt > -1000 ? int(yt) : -1000),
       ind = (utmp ? 2 : 0) + (northp ? 1 : 0);
     // x / tile_ and y / tile_ underflow to -0 for tiny negative arguments
     if (x < 0 && ix == 0) ix = -1;
@@ -307,7 +309,7 @@ namespace GeographicLib {
       if (ix == maxeasting_[ind] && x == maxeasting_[ind] * tile_)
         x -= eps;
       else
-        throw GeographicErr("Easting " + Utility::str(int(floor(x/1000)))
+        throw GeographicErr("Easting " + Utility::str(floor(x/1000))
                             + "km not in MGRS/"
                             + (utmp ? "UTM" : "UPS") + " range for "
                             + (northp ? "N" : "S" ) + " hemisphere ["
@@ -320,7 +322,7 @@ namespace GeographicLib {
       if (iy == maxnorthing_[ind] && y == maxnorthing_[ind] * tile_)
         y -= eps;
       else
-        throw GeographicErr("Northing " + Utility::str(int(floor(y/1000)))
+        throw GeographicErr("Northing " + Utility::str(floor(y/1000))
                             + "km not in MGRS/"
                             + (utmp ? "UTM" : "UPS") + " range for "
                             + (northp ? "N" : "S" ) + " hemisphere ["
